@@ -38,6 +38,55 @@ fn one_request_conn(g: &mut Rng, ci: usize, open_at: u64, stay_open: bool, stall
     )
 }
 
+/// The pool's idle period as the tree under test exhibits it: none of the properties names its
+/// length, so the oracles do not either.  Measured once per process by a fixed calibration run
+/// (eight connections arrive together and leave; the live library threads are counted every
+/// 100 ms of virtual time until they are back at the number counted before the first client).
+/// The value is the first sampling offset, after the last activity, at which the surplus was
+/// gone (5.001 s on the shipped constant).  If the surplus never goes within 120 s the shipped
+/// value is assumed, and the reclaim clauses then report exactly that.
+pub fn idle_period_ns() -> u64 {
+    static P: std::sync::OnceLock<u64> = std::sync::OnceLock::new();
+    *P.get_or_init(|| {
+        if let Ok(v) = std::env::var("DST_IDLE_NS") {
+            if let Ok(n) = v.parse::<u64>() {
+                return n;
+            }
+        }
+        calibrate_idle().unwrap_or(5_001 * MS)
+    })
+}
+
+fn calibrate_idle() -> Option<u64> {
+    let mut sc = Scenario::new();
+    let mut g = Rng::new(0x1d1e).sub("calibration");
+    for ci in 0..8 {
+        let (c, id) = one_request_conn(&mut g, ci, MS, false, false);
+        sc.conns.push(c);
+        sc.programs.insert(id.clone(), Program::respond(200, token_body(&id, 10)));
+    }
+    sc.receivers = loop_receivers(1, Dispatch::Inline);
+    sc.driver = vec![DriverStep::Settle, DriverStep::Snapshot("baseline".into())];
+    for k in 1..=1200u64 {
+        sc.driver.push(DriverStep::SleepUntil(MS + k * 100 * MS + MS));
+        sc.driver.push(DriverStep::Settle);
+        sc.driver.push(DriverStep::Snapshot(format!("k{}", k)));
+    }
+    sc.note = "C20 idle-period calibration".into();
+    let out = crate::engine::run_scenario(&sc, 1, None, false, false);
+    let count = |x: &crate::engine::Snapshot| x.threads.iter().filter(|t| t.0 == "lib" && t.1 != "Finished").count();
+    let base = count(snap(&out, "baseline")?);
+    let mut peak = 0;
+    for k in 1..=1200u64 {
+        let n = count(snap(&out, &format!("k{}", k))?);
+        peak = peak.max(n);
+        if n <= base && peak > base {
+            return Some(k * 100 * MS + MS);
+        }
+    }
+    None
+}
+
 impl Campaign for C08c {
     fn id(&self) -> &'static str {
         "C08"
@@ -63,6 +112,8 @@ impl Campaign for C08c {
             *g.pick(&[1usize, 2, 3, 4, 5, 5, 6, 6, 7, 8, 12])
         };
         let pattern = g.below(4);
+        // the instant at which workers idle since t=0 retire
+        let idle = (idle_period_ns() - MS) as i64;
         let eps: [i64; 7] = [-1_000_000, -1, 0, 1, 500_000, 1_000_000, 100_000_000];
         for ci in 0..n {
             let (open_at, stay) = match pattern {
@@ -73,10 +124,10 @@ impl Campaign for C08c {
                     if ci < n / 2 {
                         (0, false)
                     } else {
-                        ((5 * SEC as i64 + *g.pick(&eps)) as u64, true)
+                        ((idle + *g.pick(&eps)) as u64, true)
                     }
                 }
-                _ => (if g.chance(1, 2) { 0 } else { (5 * SEC as i64 + *g.pick(&eps)) as u64 }, g.chance(2, 3)),
+                _ => (if g.chance(1, 2) { 0 } else { (idle + *g.pick(&eps)) as u64 }, g.chance(2, 3)),
             };
             let stall = g.chance(1, 6);
             let (c, id) = one_request_conn(&mut g, ci, open_at, stay, stall);
@@ -150,7 +201,7 @@ impl Campaign for C20c {
         "C20"
     }
     fn rule(&self) -> &'static str {
-        "seeded histories: a burst of 1..12 connections (thorough: up to 40), each request answered by a handler thread after a generated virtual delay, then either (A) the server is dropped at a generated instant (requests pending in the backlog, queued, or handed out and unanswered) followed by a connect attempt and late answers, or (B) all clients close and the live library threads are counted 4.9 s and 5.001 s after the last activity (strict virtual time), or (C, one run in ten) after a burst of 16..40 connections one short connection per second keeps arriving for 7 s and the surplus workers of the burst must still be gone 6.5 s after it; non-trivial = (A) at least one request was answered after the drop, or (B, C) more than 4 workers existed; distinct = interleaving fingerprint"
+        "seeded histories: a burst of 1..12 connections (thorough: up to 40), each request answered by a handler thread after a generated virtual delay, then either (A) the server is dropped at a generated instant (requests pending in the backlog, queued, or handed out and unanswered) followed by a connect attempt and late answers, or (B) all clients close and the live library threads are counted just before and 1 ms after one idle period (calibrated, not assumed) has passed since the last activity (strict virtual time), or (C, one run in ten) after a burst of 16..40 connections one short connection per fifth of an idle period keeps arriving and the surplus workers of the burst must still be gone 1.3 idle periods after it; non-trivial = (A) at least one request was answered after the drop, or (B, C) more than 4 workers existed; distinct = interleaving fingerprint"
     }
     fn runs(&self, tier: Tier) -> u64 {
         match tier {
@@ -163,7 +214,7 @@ impl Campaign for C20c {
     }
     fn extra_assumptions(&self) -> Vec<String> {
         vec![
-            "the idle period of surplus workers is the 5 s of src/util/task_pool.rs: live threads are counted 5.001 virtual s after the last activity".into(),
+            format!("the length of the idle period is not part of the property: it is measured by a calibration run in every process (this tree: surplus workers gone {} ms after the last activity) and all instants of the reclaim clauses are placed relative to it", idle_period_ns() / MS),
             "'within a short bounded time' is read as: one virtual second after drop(server) returned (and drop itself takes at most one)".into(),
         ]
     }
@@ -184,9 +235,10 @@ impl Campaign for C20c {
                 sc.programs.insert(id.clone(), Program::respond(200, token_body(&id, 10)));
             }
             let trickle = 7;
+            let p = idle_period_ns() - MS;
             for k in 0..trickle {
                 let ci = n + k;
-                let (c, id) = one_request_conn(&mut g, ci, SEC * (k as u64 + 1), false, false);
+                let (c, id) = one_request_conn(&mut g, ci, p / 5 * (k as u64 + 1), false, false);
                 sc.conns.push(c);
                 sc.programs.insert(id.clone(), Program::respond(200, token_body(&id, 10)));
             }
@@ -194,11 +246,11 @@ impl Campaign for C20c {
             sc.driver = vec![
                 DriverStep::Settle,
                 DriverStep::Snapshot("baseline".into()),
-                DriverStep::SleepUntil(6 * SEC + 500 * MS),
+                DriverStep::SleepUntil(p / 10 * 13),
                 DriverStep::Settle,
-                DriverStep::Snapshot("trickle_6500ms".into()),
+                DriverStep::Snapshot("trickle_1.3p".into()),
             ];
-            sc.note = format!("C20 index {} sub C n={} trickle={}", index, n, trickle);
+            sc.note = format!("C20 index {} sub C n={} trickle={} idle_period={}ms", index, n, trickle, p / MS);
             return sc;
         }
         let n = if tier == Tier::Thorough && g.chance(1, 6) {
@@ -209,9 +261,10 @@ impl Campaign for C20c {
         if sub_b {
             // reclaim: everybody closes, then idle
             let second = g.chance(1, 3);
+            let p = idle_period_ns() - MS;
             let mut last = 0u64;
             for ci in 0..n {
-                let open_at = if second && ci >= n / 2 { *g.pick(&[SEC, 4 * SEC, 5 * SEC, 6 * SEC]) } else { MS + g.below(2) * MS };
+                let open_at = if second && ci >= n / 2 { *g.pick(&[p / 5, p / 5 * 4, p, p / 5 * 6]) } else { MS + g.below(2) * MS };
                 last = last.max(open_at);
                 let (c, id) = one_request_conn(&mut g, ci, open_at, false, false);
                 sc.conns.push(c);
@@ -222,14 +275,14 @@ impl Campaign for C20c {
                 // the baseline (accept thread + the pool's fixed minimum) is measured before any client arrives
                 DriverStep::Settle,
                 DriverStep::Snapshot("baseline".into()),
-                DriverStep::SleepUntil(last + 4_900 * MS),
+                DriverStep::SleepUntil(last + p - 100 * MS),
                 DriverStep::Settle,
-                DriverStep::Snapshot("idle_4900ms".into()),
-                DriverStep::SleepUntil(last + 5_001 * MS),
+                DriverStep::Snapshot("idle_before".into()),
+                DriverStep::SleepUntil(last + p + MS),
                 DriverStep::Settle,
-                DriverStep::Snapshot("idle_5001ms".into()),
+                DriverStep::Snapshot("idle_after".into()),
             ];
-            sc.note = format!("C20 index {} sub B n={} second_burst={}", index, n, second);
+            sc.note = format!("C20 index {} sub B n={} second_burst={} idle_period={}ms", index, n, second, p / MS);
         } else {
             let mut total = 0;
             for ci in 0..n {
@@ -267,16 +320,17 @@ impl Campaign for C20c {
     fn check(&self, sc: &Scenario, out: &RunOut) -> Verdict {
         let mut v = Verdict::default();
         if sc.note.contains("sub C") {
-            if let (Some(b), Some(s)) = (snap(out, "baseline"), snap(out, "trickle_6500ms")) {
+            if let (Some(b), Some(s)) = (snap(out, "baseline"), snap(out, "trickle_1.3p").or_else(|| snap(out, "trickle_6500ms"))) {
                 let count = |x: &crate::engine::Snapshot| x.threads.iter().filter(|t| t.0 == "lib" && t.1 != "Finished").count();
                 let (base, live) = (count(b), count(s));
-                // by 6.5 s six connections have been dispatched since the burst ended at ~1 ms: each
-                // can have restarted the idle period of at most one worker
+                // by 1.3 idle periods six connections (one every fifth of a period) have been
+                // dispatched since the burst ended at ~1 ms: each can have restarted the idle
+                // period of at most one worker
                 if live > base + 7 && !sc.knobs.spurious && !sc.knobs.racy_time {
                     v.violations.push(Violation {
                         clause: "C20.reclaim".into(),
                         signature: "surplus workers idle for more than the idle period survive as long as some traffic trickles in".into(),
-                        detail: format!("{}: {} library threads alive at t=6.5 s (baseline {}, peak {}); the burst ended at t=1 ms and only one short connection per second has arrived since", sc.note, live, base, out.report.max_threads),
+                        detail: format!("{}: {} library threads alive 1.3 idle periods after the burst (baseline {}, peak {}); the burst ended at t=1 ms and only one short connection per fifth of an idle period has arrived since", sc.note, live, base, out.report.max_threads),
                     });
                 }
                 v.nontrivial = true;
@@ -286,16 +340,16 @@ impl Campaign for C20c {
         }
         let sub_b = sc.note.contains("sub B");
         if sub_b {
-            if let Some(s) = snap(out, "idle_5001ms") {
+            if let Some(s) = snap(out, "idle_after").or_else(|| snap(out, "idle_5001ms")) {
                 let live: Vec<_> = s.threads.iter().filter(|t| t.0 == "lib" && t.1 != "Finished").collect();
                 let baseline = snap(out, "baseline").map(|b| b.threads.iter().filter(|t| t.0 == "lib" && t.1 != "Finished").count()).unwrap_or(5);
                 if live.len() > baseline {
                     v.violations.push(Violation {
                         clause: "C20.reclaim".into(),
-                        signature: "surplus idle workers still alive 5.001 s after the last activity".into(),
+                        signature: "surplus idle workers still alive one idle period after the last activity".into(),
                         detail: format!(
-                            "{} library threads are alive {} ns after the last client activity (baseline measured before the first client: {} threads); peak was {} threads in the run: {}",
-                            live.len(), 5_001 * MS, baseline, out.report.max_threads, describe_blocked(s)
+                            "{}: {} library threads are alive one idle period (as calibrated, see the note) + 1 ms after the last client activity (baseline measured before the first client: {} threads); peak was {} threads in the run: {}",
+                            sc.note, live.len(), baseline, out.report.max_threads, describe_blocked(s)
                         ),
                     });
                 }
